@@ -442,37 +442,89 @@ def overlap_window(ctx, rid):
     compares both ends (shared with C14: two published regions whose decode windows intersect answer at the same address)."""
     m = ctx.mod(SOC)
     # ================= A2: check_regions_overlap / check_region_is_in
+    import itertools
+    from .. import pyconst
     fo = m.method("SoCBusHandler", "check_regions_overlap")
-    attrs = sorted({n.attr for n in ast.walk(fo) if isinstance(n, ast.Attribute) and n.attr in ("size", "size_pow2")})
-    ok = attrs == ["size_pow2"]
-    ctx.ob(rid, SOC, "SoCBusHandler.check_regions_overlap", "extent attribute is size_pow2 (the decoded window)", ok,
-           "" if ok else f"overlap test reads {attrs}: regions that do not overlap by .size can still share decoded addresses", fo)
-    tests = [n for n in ast.walk(fo) if isinstance(n, ast.If) and isinstance(n.test, ast.Compare) and "origin" in norm(n.test)]
-    ok = len(tests) == 2
-    why = f"{len(tests)} origin comparisons"
-    if ok:
-        t0, t1 = norm(tests[0].test), norm(tests[1].test)
-        sw = t0.replace("r0", "\0").replace("r1", "r0").replace("\0", "r1")
-        # canonical orientation: `r0.origin >= r1.origin + r1.size_pow2` is read as `r1.origin + r1.size_pow2 <= r0.origin`
-        ok = sw == t1 and t0 == "r1.origin + r1.size_pow2 <= r0.origin"
-        ok = ok and all(len(t.body) == 1 and isinstance(t.body[0], ast.Continue) for t in tests)
-        why = f"{t0} / {t1}"
-    ctx.ob(rid, SOC, "SoCBusHandler.check_regions_overlap", "disjointness tests are mirror images, each adding the other extent",
-           ok, "" if ok else why, fo)
-    po = P.feasible_paths(fo)
-    ok = any(p.end == "return" and isinstance(p.end_node.value, ast.Tuple) for p in po) and \
-        any(p.end == "return" and norm(p.end_node.value) == "None" for p in po)
-    ctx.ob(rid, SOC, "SoCBusHandler.check_regions_overlap", "returns the pair on overlap, None otherwise", ok, "" if ok else "return shape changed", fo)
-    # pair loop covers all i<j
-    ok = any(isinstance(n, ast.For) and norm(n.iter) == "list(regions.keys())[i + 1:]" for n in ast.walk(fo)) and \
-        any(isinstance(n, ast.While) and norm(n.test) == "i < len(regions)" for n in ast.walk(fo))
-    ctx.ob(rid, SOC, "SoCBusHandler.check_regions_overlap", "all pairs i<j compared", ok, "" if ok else "pair iteration changed", fo)
     fi = m.method("SoCBusHandler", "check_region_is_in")
-    cmps = [norm(n) for n in ast.walk(fi) if isinstance(n, ast.Compare)]
-    ok = "container.origin <= region.origin" in cmps and \
-        "region.origin + region.size <= container.origin + container.size" in cmps
-    ctx.ob(rid, SOC, "SoCBusHandler.check_region_is_in", "containment compares both ends", ok, "" if ok else f"{cmps}", fi)
+    me = pyconst.NS()
+    shapes = [(3, 4), (4, 4), (5, 8)]           # (size, size_pow2): the decoded window is the power of two above the size
+    origins = [0, 3, 4, 6, 8]
 
+    def region(o, sh, linker=False):
+        return pyconst.NS(origin=o, size=sh[0], size_pow2=sh[1], linker=linker)
+
+    def expect(regs, check_linker):
+        names = list(regs)
+        for a in range(len(names)):
+            for b in range(a + 1, len(names)):
+                r0, r1 = regs[names[a]], regs[names[b]]
+                if (r0["linker"] or r1["linker"]) and not check_linker:
+                    continue
+                if r0["origin"] < r1["origin"] + r1["size_pow2"] and r1["origin"] < r0["origin"] + r0["size_pow2"]:
+                    return (names[a], names[b])
+        return None
+    bad = {"window": None, "pairs": None, "linker": None}
+    n_ev = 0
+    try:
+        # two regions, full grid: the window arithmetic (extent = size_pow2, both orders)
+        for (o0, s0), (o1, s1) in itertools.product(itertools.product(origins, shapes), repeat=2):
+            regs = {"a": region(o0, s0), "b": region(o1, s1)}
+            got = pyconst.call(fo, {"self": me, "regions": regs, "check_linker": False})
+            n_ev += 1
+            want = expect(regs, False)
+            if got != ("return", want) and bad["window"] is None:
+                bad["window"] = (regs, got, want)
+        # three regions: every pair is looked at, the first overlapping pair (i < j) is reported
+        for o in itertools.product(origins + [16], repeat=3):
+            for sh in ((3, 4), (5, 8)):
+                regs = {"a": region(o[0], sh), "b": region(o[1], (4, 4)), "c": region(o[2], sh)}
+                got = pyconst.call(fo, {"self": me, "regions": regs, "check_linker": False})
+                n_ev += 1
+                want = expect(regs, False)
+                if got != ("return", want) and bad["pairs"] is None:
+                    bad["pairs"] = (regs, got, want)
+        # linker regions are skipped unless asked for
+        for cl in (False, True):
+            for l0, l1 in ((True, False), (False, True), (True, True)):
+                regs = {"a": region(0, (4, 4), l0), "b": region(0, (4, 4), l1), "c": region(0, (4, 4))}
+                got = pyconst.call(fo, {"self": me, "regions": regs, "check_linker": cl})
+                n_ev += 1
+                want = expect(regs, cl)
+                if got != ("return", want) and bad["linker"] is None:
+                    bad["linker"] = (regs, got, want)
+    except pyconst.Unknowable as ex:
+        ctx.need(False, f"check_regions_overlap cannot be interpreted on constant region tables ({ex})")
+    ctx.analysed["paths"] += n_ev
+
+    def show(b):
+        regs, got, want = b
+        return f"regions {({k: (v['origin'], v['size'], v['size_pow2']) for k, v in regs.items()})} (origin, size, size_pow2): " \
+               f"returned {got[1] if got[0] == 'return' else got[0]!r}, expected {want!r}"
+    ok = bad["window"] is None
+    ctx.ob(rid, SOC, "SoCBusHandler.check_regions_overlap", "extent attribute is size_pow2 (the decoded window)", ok,
+           "" if ok else show(bad["window"]) + ": regions that do not overlap by .size can still share decoded addresses (or disjoint windows "
+                                                 "are rejected)", fo)
+    ctx.ob(rid, SOC, "SoCBusHandler.check_regions_overlap", "disjointness tests are mirror images, each adding the other extent",
+           ok, "" if ok else show(bad["window"]), fo)
+    ok = bad["pairs"] is None
+    ctx.ob(rid, SOC, "SoCBusHandler.check_regions_overlap", "returns the pair on overlap, None otherwise", ok and bad["window"] is None,
+           "" if ok and bad["window"] is None else show(bad["pairs"] or bad["window"]), fo)
+    ctx.ob(rid, SOC, "SoCBusHandler.check_regions_overlap", "all pairs i<j compared", ok, "" if ok else show(bad["pairs"]), fo)
+    ok = bad["linker"] is None
+    ctx.ob(rid, SOC, "SoCBusHandler.check_regions_overlap", "linker regions skipped unless check_linker", ok, "" if ok else show(bad["linker"]), fo)
+    badc = None
+    try:
+        for (o0, s0), (o1, s1) in itertools.product(itertools.product(origins, shapes), repeat=2):
+            r, c = region(o0, s0), region(o1, s1)
+            got = pyconst.call(fi, {"self": me, "region": r, "container": c})
+            want = o0 >= o1 and o0 + s0[0] <= o1 + s1[0]
+            if (got[0] != "return" or bool(got[1]) != want) and badc is None:
+                badc = ((o0, s0[0]), (o1, s1[0]), got, want)
+    except pyconst.Unknowable as ex:
+        ctx.need(False, f"check_region_is_in cannot be interpreted ({ex})")
+    ok = badc is None
+    ctx.ob(rid, SOC, "SoCBusHandler.check_region_is_in", "containment compares both ends", ok,
+           "" if ok else f"region (origin, size) {badc[0]} in container {badc[1]}: returned {badc[2][1]!r}, expected {badc[3]}", fi)
 
 
 def _pyeval(e, env):
